@@ -4,6 +4,7 @@
 #include "common/oracle.hpp"
 #include "common/g2tol.hpp"
 #include <Eigen/LU>
+#include <pomerol/Vertex4.h>
 
 using namespace vh;
 
